@@ -29,7 +29,12 @@ def body(c):
         "shunt element, through, decoupled ports, short / open pair, "
         "floating n-port, common-node n-port -- i.e. networks for which some "
         "OTHER representation does not exist, existence decided in the spec "
-        "by exact integer determinants of {constraints, independent tuple}); "
+        "by exact integer determinants of {constraints, independent tuple}; "
+        "and magnitude classes: network impedance level 1e-6..1e6 x z0 for "
+        "the voltage/current family, z0 of 1e-3 / 1e5 ohm and mixed per "
+        "port for every function); every libvna call is made three times "
+        "(FP exception flags cleared / raised / after a singular-input call) "
+        "and must give bit-identical results; "
         "%d seeded draws per case: a random "
         "n-port (or a structured network with random passive element "
         "values), its matrix of the input type built from the defining "
